@@ -45,6 +45,68 @@ Theorem C19_strip_value_check_zero : forall g g' prog arrays m e,
 Proof. exact strip_value_cz. Qed.
 Print Assumptions C19_strip_value_check_zero.
 
+(* strip_value_total -- the code after fix 150ba09 (instance 3 of the model: divisor
+   factor + (factor == 0), exponents in R + {-inf}, log10 0 = -inf).  For EVERY well-formed program
+   of homogeneous kernels and ALL inputs -- zero intermediates included, no hypothesis on the
+   factors -- the stripped run's (m, e) denotes the plain result, with 10^(-inf) * m = 0. *)
+Theorem C19_strip_value_total : forall g' prog arrays m e,
+  Forall homog_instr prog ->
+  wf_prog R prog (seq 0 (length arrays)) = true ->
+  T_core true false prog arrays = Done m (Some e) ->
+  R_core g' false false prog arrays = Done (R_scale (p10 e) m) None.
+Proof. exact strip_value_total. Qed.
+Print Assumptions C19_strip_value_total.
+
+(* add_maybe_exponent_stripped after the fix (`if e == -inf: return (xm + ym, e)`), all four
+   combinations, exponents possibly -inf: the value of the result is the sum of the values *)
+Theorem C19_add_stripped_value_total : forall x y,
+  T_value (T_add x y) = R_madd (T_value x) (T_value y).
+Proof. exact T_add_value. Qed.
+Print Assumptions C19_add_stripped_value_total.
+
+(* C19_sliced_sum_value_total: every sliced tree without sliced output index, all inputs,
+   slices whose partial result is exactly zero included (one, several or all): whenever the slice
+   runs return (they do unless the program has no pairwise step), the plain slice contractions
+   return and the gathered (mantissa, exponent) denotes their sum (10^(-inf) = 0). *)
+Theorem C19_sliced_sum_value_total : forall g' prog slices ms r,
+  Forall homog_instr prog ->
+  Forall2 (fun arrs me => wf_prog R prog (seq 0 (length arrs)) = true /\
+                          T_core true false prog arrs = Done (fst me) (Some (snd me))) slices ms ->
+  T_gather_sum (map strip_of ms) = Some r ->
+  exists ps, Forall2 (fun arrs p => R_core g' false false prog arrs = Done p None) slices ps /\
+             match ps with
+             | [] => False
+             | p :: rest => T_value r = fold_left R_madd (map (fun x => MArr x) rest) (MArr p)
+             end.
+Proof. exact sliced_sum_value_total. Qed.
+Print Assumptions C19_sliced_sum_value_total.
+
+(* the sliced-output (stack) branch, same generality, the all-chunks-zero case (emax = -inf)
+   included: every rescaled chunk times 10^emax is the sum of the plain results of the slices
+   with that chunk's key *)
+Theorem C19_gather_stack_value_total : forall b chunks res em,
+  T_gather_stack b chunks = Some (res, Some em) ->
+  map (fun km => (fst km, R_mscale_r (snd km) (p10 em))) res = map tkvalue chunks.
+Proof. exact T_gather_stack_value. Qed.
+Print Assumptions C19_gather_stack_value_total.
+
+Theorem C19_sliced_stack_value_total : forall g' b prog slices ms keys res em,
+  Forall homog_instr prog ->
+  Forall2 (fun arrs me => wf_prog R prog (seq 0 (length arrs)) = true /\
+                          T_core true false prog arrs = Done (fst me) (Some (snd me))) slices ms ->
+  T_gather_stack b (T_group (combine keys (map strip_of ms))) = Some (res, Some em) ->
+  exists ps, Forall2 (fun arrs p => R_core g' false false prog arrs = Done p None) slices ps /\
+             map (fun km => (fst km, R_mscale_r (snd km) (p10 em))) res =
+             vgroup (combine keys (map (fun x => MArr x) ps)).
+Proof. exact sliced_stack_value_total. Qed.
+Print Assumptions C19_sliced_stack_value_total.
+
+(* "whenever that result is non-zero": a denoted value with a non-zero entry has a finite exponent *)
+Theorem C19_nonzero_value_finite_exponent : forall m e v,
+  In v (R_scale (p10 e) m) -> v <> 0 -> exists x, e = EFin x.
+Proof. exact nonzero_value_finite_exponent. Qed.
+Print Assumptions C19_nonzero_value_finite_exponent.
+
 Theorem C19_guards_ok : guard_ok (fun f => f) /\ guard_ok rguard_fix.
 Proof. exact (conj guard_ok_id guard_ok_fix). Qed.
 Print Assumptions C19_guards_ok.
@@ -147,31 +209,37 @@ Theorem C19_products_in_float_range : forall (t : bil) x y K,
 Proof. exact bil_in_range. Qed.
 Print Assumptions C19_products_in_float_range.
 
-(* zero_slice_refuted (finding strip-zero-slice).  In the exact-IEEE instance of the same
+(* HISTORICAL -- about the PRE-FIX definitions (exact-IEEE instance with pt = false = the code before
+   fix commit 150ba09, where p_array / factor was 0/0 = nan).  Kept as the record of finding
+   strip-zero-slice; the current code is covered by the `_total` theorems above and by
+   C19_zero_slice_with_fix below.
+   zero_slice_refuted (finding strip-zero-slice).  In the exact-IEEE instance of the same
    model: 'ab,bc->ac' sliced on b, x = [[1,0],[2,0]], y = [[1,2],[3,4]].  The plain total
    [[1,2],[2,4]] has no zero entry, slice b=1 is exactly zero, its factor is 0, the slice
    is (nan, -inf) and the gathered mantissa is NaN: mantissa * 10^exponent <> result. *)
-Theorem C19_zero_slice_refuted : exists prog slices r s,
+Theorem C19_pre_fix_zero_slice_refuted : exists prog slices r s,
   X_wf prog [0;1]%nat = true /\
   X_sum false false false prog slices = Some (Plain (MArr r)) /\
   forallb x_nonzero_finite r = true /\
   X_sum false true false prog slices = Some s /\
   x_value_ok (Plain (MArr r)) s = false /\
   s = Strip (MArr [XNaN; XNaN; XNaN; XNaN]) (XF 4).
-Proof. exact zero_slice_refuted. Qed.
-Print Assumptions C19_zero_slice_refuted.
+Proof. exact pre_fix_zero_slice_refuted. Qed.
+Print Assumptions C19_pre_fix_zero_slice_refuted.
 
-(* with check_zero=True a single zero slice is absorbed ((0.0, -inf) has weight 10^-inf = 0),
+(* HISTORICAL, pre-fix definitions (pt = false) as well, except the last conjunct's crash which
+   is still current (known: strip-zero-chunk-check-zero-stack):
+   with check_zero=True a single zero slice is absorbed ((0.0, -inf) has weight 10^-inf = 0),
    but two zero slices met first give -inf - -inf = nan, and a zero chunk of a sliced output
    index cannot be stacked (Python scalar 0.0 next to arrays: the model's None = raises) *)
-Theorem C19_zero_slice_check_zero : 
+Theorem C19_pre_fix_zero_slice_check_zero : 
   x_value_ok (Plain (MArr [XF 1; XF 2; XF 2; XF 4]))
              (match X_sum false true true zs_prog zs_slices with Some s => s | None => Plain (MScal XNaN) end) = true /\
   X_sum false true true zs_prog [nth 1 zs_slices []; nth 1 zs_slices []; nth 0 zs_slices []] =
      Some (Strip (MArr [XNaN; XNaN; XNaN; XNaN]) (XF 4)) /\
   X_stack false true true false zs_prog [0;1]%nat zs_slices = None.
-Proof. exact zero_slice_check_zero. Qed.
-Print Assumptions C19_zero_slice_check_zero.
+Proof. exact pre_fix_zero_slice_check_zero. Qed.
+Print Assumptions C19_pre_fix_zero_slice_check_zero.
 
 (* the same witnesses under the semantics of the proposed fix (first argument `true`:
    divisor factor + (factor == 0), `== -inf` guards): the value is right with and without
@@ -231,3 +299,24 @@ Example C19_gather_nonvacuous :
   R_value (R_add (Strip (MArr [1; 2]) 3) (Plain (MArr [5; 7]))) =
   R_madd (R_mscale_r (MArr [1; 2]) (pow10 3)) (MArr [5; 7]).
 Proof. rewrite C19_add_stripped_value. reflexivity. Qed.
+
+(* non-vacuity of the total theorem on a zero intermediate: 'a,a->' on [1,2] . [0,0] over the reals
+   returns exponent -inf, and the hypotheses of C19_strip_value_total hold *)
+Example C19_strip_value_total_nonvacuous :
+  let prog := [IPair 2 0 1 (R_bil [[(0,0);(1,1)]%N])] in
+  let arrays := [[1;2];[0;0]] in
+  Forall homog_instr prog /\ wf_prog R prog (seq 0 (length arrays)) = true /\
+  exists m, T_core true false prog arrays = Done m (Some ENInf).
+Proof.
+  cbv zeta. split; [|split].
+  - constructor; [apply R_bil_homog | constructor].
+  - reflexivity.
+  - eexists. unfold T_core, contract_core. fold T_run. cbn [length seq combine].
+    rewrite T_run_pair. cbn [tpop Nat.eqb andb].
+    assert (Z : R_maxabs (R_bil [[(0, 0); (1, 1)]%N] [1; 2] [0; 0]) = 0).
+    { apply zero_maxabs. unfold R_bil, bil_apply, fsum, zero. cbn [map fold_right fst snd].
+      change (N.to_nat 0) with 0%nat. change (N.to_nat 1) with 1%nat. cbn [nth].
+      constructor; [ring | constructor]. }
+    rewrite Z. unfold er_log, ris0. destruct (Req_EM_T 0 0) as [_|N]; [|exfalso; apply N; reflexivity].
+    rewrite T_run_nil. cbn [er_add]. reflexivity.
+Qed.
